@@ -1,0 +1,9 @@
+//go:build verif
+
+package jobs
+
+// VerifCurrentCheckpointIDC16 returns the id of the job checkpoint a (re)start would restore right now
+// (0 when there is none). Verification harness only.
+func (j *Job) VerifCurrentCheckpointIDC16() uint64 {
+	return j.snapshotStore.CurrentCheckpoint().GetId()
+}
